@@ -9,6 +9,7 @@ import RevalModel.Lemmas.DecExact
 import RevalModel.Lemmas.Strings
 import RevalModel.Lemmas.Equality
 import RevalModel.Lemmas.IntDiv
+import RevalModel.Lemmas.AsciiCase
 
 namespace Reval.C02
 
@@ -275,6 +276,19 @@ theorem duration_unit_counts_truncate (o : Oracle) (ns : Int) :
   · simp only [applyUn, Impl.minute, Time.numUnits, Time.numSeconds]; rw [Int.tdiv_tdiv_pos _ _ _ hs (by decide)]
   · simp [applyUn, Impl.second, Time.numUnits, Time.numSeconds]
 
+/-- on ASCII text `uppercase` / `lowercase` map character by character (only a–z / A–Z move, by 32), keep the length, are
+    idempotent, and each undoes the other up to case: lower(upper(s)) = lower(s), upper(lower(s)) = upper(s) -/
+theorem ascii_case_mapping (o : Oracle) (s : Str) (h : Str.isAscii s = true) :
+    applyUn o .upper (.str s) = .ok (.str (s.map Str.asciiUpper)) ∧
+    applyUn o .lower (.str s) = .ok (.str (s.map Str.asciiLower)) ∧
+    applyUn o .upper (.str (s.map Str.asciiUpper)) = .ok (.str (s.map Str.asciiUpper)) ∧
+    applyUn o .lower (.str (s.map Str.asciiLower)) = .ok (.str (s.map Str.asciiLower)) ∧
+    applyUn o .lower (.str (s.map Str.asciiUpper)) = .ok (.str (s.map Str.asciiLower)) ∧
+    applyUn o .upper (.str (s.map Str.asciiLower)) = .ok (.str (s.map Str.asciiUpper)) ∧
+    (s.map Str.asciiUpper).length = s.length := by
+  obtain ⟨h1, h2, h3, h4, h5, h6⟩ := map_ascii s h
+  simp [applyUn, Impl.upper, Impl.lower, h, h1, h2, h3, h4, h5, h6]
+
 /-! non-vacuity -/
 example : applyBin Oracle.empty .sub (.int 7) (.int 9) = .ok (.int (-2)) := by decide
 example : applyBin Oracle.empty .rem (.int (-7)) (.int 2) = .ok (.int (-1)) := by decide
@@ -293,5 +307,7 @@ example : applyUn Oracle.empty .toInt (.dec ⟨true, 199, 2⟩) = .ok (.int (-1)
 example : applyUn Oracle.empty .toInt (.dec ⟨false, 25, 1⟩) = .ok (.int 2) := by decide      -- int(d2.5) = 2
 
 example : applyUn Oracle.empty .hour (.duration (-5400 * Time.nsPerSec)) = .ok (.int (-1)) := by decide   -- −90 minutes: −1 hours
+example : applyUn Oracle.empty .upper (.str "aZ-9 {z}".toList) = .ok (.str "AZ-9 {Z}".toList) := by decide
+
 
 end Reval.C02
